@@ -233,6 +233,9 @@ func init() {
 		mutant{Name: "benign-add-predicate-reordered", Prop: "C12", File: "interp/typecheck.go", Old: "\taAdd: func(typ reflect.Type) bool { return isNumber(typ) || isString(typ) },\n", New: "\taAdd: func(typ reflect.Type) bool { return isString(typ) || isNumber(typ) },\n", Benign: true},
 		mutant{Name: "ordering-accepted-on-complex", Prop: "C12", File: "interp/type.go", Old: "\treturn isInt(typ) || isFloat(typ) || isString(typ)\n", New: "\treturn isNumber(typ) || isString(typ)\n", Rule: "R12.6", Key: "predicate/itype.ordered"},
 		mutant{Name: "ordering-needs-one-ordered-operand-only", Prop: "C12", File: "interp/typecheck.go", Old: "\t\tok = t0.ordered() && t1.ordered()\n", New: "\t\tok = t0.ordered() || t1.ordered()\n", Rule: "R12.6", Key: "comparison/ordering-operators-need-ordered-operands"},
+		mutant{Name: "branch-on-bool-value-inverted", Prop: "C01", File: "interp/run.go", Old: "\t\tif value(f).Bool() {\n\t\t\treturn tnext\n\t\t}\n\t\treturn fnext\n", New: "\t\tif value(f).Bool() {\n\t\t\treturn fnext\n\t\t}\n\t\treturn tnext\n", Rule: "R01.12", Key: "branch/branch-polarity"},
+		mutant{Name: "callbin-branch-result-inverted", Prop: "C01", File: "interp/run.go", Old: "\t\t\tif b {\n\t\t\t\treturn tnext\n\t\t\t}\n\t\t\treturn fnext\n", New: "\t\t\tif !b {\n\t\t\t\treturn tnext\n\t\t\t}\n\t\t\treturn fnext\n", Rule: "R01.12", Key: "callBin/branch-polarity"},
+		mutant{Name: "benign-branch-written-negatively", Prop: "C01", File: "interp/run.go", Old: "\t\tif value(f).Bool() {\n\t\t\treturn tnext\n\t\t}\n\t\treturn fnext\n", New: "\t\tif !value(f).Bool() {\n\t\t\treturn fnext\n\t\t}\n\t\treturn tnext\n", Benign: true},
 		// ---- C18
 		mutant{Name: "var-bound-by-value-in-generator", Prop: "C18", File: "extract/extract.go", Old: "\t\t\tval[name] = Val{pname, true}", New: "\t\t\tval[name] = Val{pname, false}", Rule: "R18.2", Key: "genContent/addr-only-for-vars"},
 		mutant{Name: "template-forwards-wrong-field", Prop: "C18", File: "extract/extract.go", Old: "\t\t\t{{- $m.Ret}} W.W{{$m.Name}}{{$m.Arg -}}", New: "\t\t\t{{- $m.Ret}} W.{{$m.Name}}{{$m.Arg -}}", Rule: "R18.3", Key: "model/wrapper-method"},
